@@ -184,6 +184,8 @@ func cfgStoreNew(c *Ctx, kind string, rt, wt, ct int64, shards int64) {
 func replayC20(c *Ctx, op string, a map[string]string) {
 	geti := func(k string) int64 { var v int64; fmt.Sscan(a[k], &v); return v }
 	switch op {
+	case "vi.check":
+		replayC18(c, op, a)
 	case "cfg.validate":
 		switch a["pkg"] {
 		case "http":
@@ -218,6 +220,8 @@ func runC20(c *Ctx) {
 		cfgNew(c, "hook", n, false)
 	}
 	cfgNew(c, "store", "memory", true)
+	// hook options outside their documented ranges are refused
+	hookOptionTable(c, r)
 	for _, n := range []string{"", "nope", "Memory", "memory ", "client approval", "postgres"} {
 		cfgNew(c, "store", n, false)
 	}
